@@ -24,6 +24,18 @@ fn check_forms<T: Elt>(r: &Polynomial<T>, r2: &Polynomial<T>, what: &str) {
     if toks(r) != toks(r2) { panic!("harness: owned/borrowed forms differ ({})", what); }
 }
 
+// same-object forms: the same coefficients up to rounding (exact for Rat; for floats within 1e-12 of the largest
+// coefficient: a squaring path that rounds differently violates no property; dropped cross terms do)
+fn check_forms_rounding<T: Elt>(r: &Polynomial<T>, r2: &Polynomial<T>, what: &str) {
+    let (a, b) = (toks(r), toks(r2));
+    let fl = |t: &String| -> Option<f64> { t.strip_prefix('x').and_then(|h| u64::from_str_radix(h, 16).ok()).map(f64::from_bits) };
+    let scale = a.iter().chain(b.iter()).filter_map(|t| fl(t)).filter(|x| x.is_finite()).fold(0.0f64, |m, x| m.max(x.abs()));
+    let ok = a.len() == b.len() && a.iter().zip(b.iter()).all(|(x, y)| x == y || match (fl(x), fl(y)) {
+        (Some(u), Some(v)) => (u - v).abs() <= 1e-12 * scale,
+        _ => false });
+    if !ok { panic!("harness: owned/borrowed forms differ ({})", what); }
+}
+
 // run f; a library panic becomes a P<class> token and the stream continues (machinery errors propagate)
 fn guarded<F: FnOnce(&mut Out)>(out: &mut Out, f: F) {
     let mut local = Out::new();
@@ -66,9 +78,9 @@ pub fn run<T: Elt>(kind: &str, a: &mut Args, out: &mut Out) {
             check_forms(&sc, &(p.clone() * s), "*s");
             // both operands the SAME object: a shortcut keyed on pointer equality must agree with the general operator
             // (seeded mutation C11-8: a squaring fast path for `&p * &p` that dropped the cross terms)
-            check_forms(&(&p * &p), &(&p * &p.clone()), "p * p, both operands the same object");
-            check_forms(&(&p + &p), &(&p + &p.clone()), "p + p, both operands the same object");
-            check_forms(&(&p - &p), &(&p - &p.clone()), "p - p, both operands the same object");
+            check_forms_rounding(&(&p * &p), &(&p * &p.clone()), "p * p, both operands the same object");
+            check_forms_rounding(&(&p + &p), &(&p + &p.clone()), "p + p, both operands the same object");
+            check_forms_rounding(&(&p - &p), &(&p - &p.clone()), "p - p, both operands the same object");
             let rs = [add, sub, mul, neg, sc, add2, sub2, mul2];
             for r in rs.iter() { dump(r, out); deg(r, out); }
             guarded(out, |o| o.s(&p.eval(x)));
